@@ -42,6 +42,10 @@ class Obj:
         return self.name
 
 
+def _NOOP_ACTION(obj, time, new_state):
+    return None
+
+
 class Run:
     def __init__(self, sh, case):
         core.load_library()
@@ -110,10 +114,31 @@ class Run:
         case = self.case
         tt = [tuple(x) for x in case['timetable']]
         cyc = case['cyclical']
+        # (a quarter of the cases: a plain ActionScheduler whose default action the user assigns on the object after
+        #  building it, instead of subclassing)
+        assigned = core.stable_int('C18assign', case.get('tie_seed', 0), len(tt), str(tt[0])) % 4 == 0 \
+            and not case.get('spawned')
+        from simprocesd.model.factory_floor import ActionScheduler as _AS
+        cls_ = _AS if assigned else self.HSched
         if cyc is None:
-            self.sched = self.HSched(tt, name='sched')
+            self.sched = cls_(tt, name='sched')
         else:
-            self.sched = self.HSched(tt, name='sched', is_cyclical=cyc)
+            self.sched = cls_(tt, name='sched', is_cyclical=cyc)
+        if assigned:
+            run_, sched_ = self, self.sched
+
+            class AssignedDefault:
+                def __call__(self, obj, time, new_state):
+                    if instrument.PROBING:
+                        return
+                    run_.calls.append(('default', obj, (obj, time, new_state)))
+                    run_.state_seen_in_action(sched_.current_state, new_state, time)
+
+                def __deepcopy__(self, memo):
+                    return _NOOP_ACTION
+            self.sched.default_action = AssignedDefault()
+            sh_ = self.sh
+            sh_.count('schedulers_with_a_default_action_assigned_on_the_object')
 
     def fail(self, name, msg):
         if not self.failed:
